@@ -118,6 +118,45 @@ fn ascii_exact(rep: &mut Report, orc: &mut Oracle, rng: &mut Rng, m: &Moc, n_mut
   }
   ok
 }
+/// streaming ASCII: writer vs Model/AsciiCodec.v to_ascii_stream, reader vs from_ascii_stream
+fn stream_exact(rep: &mut Report, orc: &mut Oracle, rng: &mut Rng, m: &Moc, n_mut: usize) -> bool {
+  let mut ok = true;
+  for use_len in [false, true] {
+    rep.evaluations += 1;
+    rep.count("ascii-stream-writer-exact");
+    let r = dispatch!(m.q, m.w, |T, QQ| {
+      let mm: RangeMOC<T, QQ> = to_range_moc(m);
+      match catch(move || {
+        let mut buf: Vec<u8> = Vec::new();
+        to_ascii_stream((&mm).into_range_moc_iter().cells().cellranges(), use_len, &mut buf).map_err(|e| format!("write error {:?}", e))?;
+        String::from_utf8(buf).map_err(|e| format!("utf8 {:?}", e))
+      }) { Ok(x) => x, Err(p) => Err(p) }
+    });
+    let req = format!("ASSW {} {} {} {} {}", m.q.c(), m.w, m.d, use_len as u8, ranges_str(&m.r));
+    let model = orc.ask(&req);
+    let model_hex = model.split_whitespace().nth(1).unwrap_or("").to_string();
+    match r {
+      Err(e) => {
+        ok = false;
+        rep.violation("streaming ASCII writer fails", &format!("{} # SER {}", req, m.line()), &e, &model, "C07_ascii_stream_roundtrip");
+      }
+      Ok(s) => {
+        if !model.starts_with("OK") || asciix::hex(s.as_bytes()) != model_hex {
+          ok = false;
+          rep.corr_break("to_ascii_stream writes other characters than the character-level model", &format!("{} # SER {}", req, m.line()), &format!("{:?}", s), &format!("{:?}", String::from_utf8_lossy(&unhex(&model_hex))), "src/deser/ascii.rs to_ascii_stream == Model/AsciiCodec.v to_ascii_stream (C07_ascii_stream_roundtrip)");
+        }
+        let c = m.q.c();
+        ok &= dispatch!(m.q, m.w, |T, QQ| asciix::compare_reader_stream::<T, QQ>(rep, orc, c, m.w, &s, "written"));
+        if !use_len {
+          for d in asciix::mutations(rng, &s, n_mut) {
+            ok &= dispatch!(m.q, m.w, |T, QQ| asciix::compare_reader_stream::<T, QQ>(rep, orc, c, m.w, &d, "mutated"));
+          }
+        }
+      }
+    }
+  }
+  ok
+}
 fn unhex(h: &str) -> Vec<u8> {
   if h == "-" { return vec![]; }
   (0..h.len() / 2).filter_map(|i| u8::from_str_radix(&h[2 * i..2 * i + 2], 16).ok()).collect()
@@ -380,6 +419,7 @@ pub fn run(ctx: &Ctx) -> Report {
           check_moc(&mut rep, &mut orc, &m);
           if i % 3 == 0 {
             ascii_exact(&mut rep, &mut orc, &mut rng, &m, 1);
+            stream_exact(&mut rep, &mut orc, &mut rng, &m, 1);
           }
         }
       }
@@ -387,12 +427,17 @@ pub fn run(ctx: &Ctx) -> Report {
         for mm in [Moc { q, w, d: dd, r: vec![] }, Moc { q, w, d: dd, r: vec![(0, q.n_cells_max(w))] }] {
           check_moc(&mut rep, &mut orc, &mm);
           ascii_exact(&mut rep, &mut orc, &mut rng, &mm, 2);
+          stream_exact(&mut rep, &mut orc, &mut rng, &mm, 2);
         }
       }
       // hand-written documents around every branch of the reader
       let c = q.c();
       for doc in asciix::crafted_1d(w, md, q.n_cells_max(w)) {
         dispatch!(q, w, |T, QQ| asciix::compare_reader_1d::<T, QQ>(&mut rep, &mut orc, c, w, &doc, "crafted"));
+      }
+      let name = match q { Q::S => "HPX", Q::T => "TIME", Q::F => "FREQUENCY" };
+      for doc in asciix::crafted_stream(name, w, md, q.n_cells_max(w)) {
+        dispatch!(q, w, |T, QQ| asciix::compare_reader_stream::<T, QQ>(&mut rep, &mut orc, c, w, &doc, "crafted"));
       }
     }
   }
@@ -412,6 +457,7 @@ pub fn run(ctx: &Ctx) -> Report {
     }
     check_moc(&mut rep, &mut orc, &m);
     ascii_exact(&mut rep, &mut orc, &mut rng, &m, 4);
+    stream_exact(&mut rep, &mut orc, &mut rng, &m, 4);
     rep.count(&format!("random:{}{}", q.c(), w));
   }
   rep.notes.push(format!("oracle calls: {}", orc.calls));
